@@ -408,7 +408,20 @@ func runStress(j Job) Outcome {
 	var swg sync.WaitGroup
 	slow := r.Intn(3) == 0
 	worstInFlight := int64(0)
-	for rr := range res {
+	hung := false
+	for {
+		var rr *vegeta.Result
+		var open bool
+		select {
+		case rr, open = <-res:
+		case <-time.After(30 * time.Second):
+			// the fake transport answers at once and the consumer is here: half a minute without a result and without
+			// the channel being closed means the attack is stuck (nothing in this run ever waits that long)
+			hung = true
+		}
+		if hung || !open {
+			break
+		}
 		// started is read AFTER the receive: every hit counted here had started before its result or a
 		// later one was taken, so started − consumed-before-this-receive is a lower bound of the true peak
 		if d := atomic.LoadInt64(&started) - int64(len(got)); d > worstInFlight {
@@ -430,6 +443,14 @@ func runStress(j Job) Outcome {
 				}()
 			}
 		}
+	}
+	if hung {
+		atk.Stop()
+		out.Findings = append(out.Findings, Finding{Kind: "attack_does_not_end",
+			What:     "stress: no result arrived for 30 s and the results channel was not closed, although the pacer says stop after a fixed number of hits and every request is answered at once",
+			Expected: fmt.Sprintf("channel closed after at most %d results", limit), Observed: fmt.Sprintf("%d results, channel still open", len(got)),
+			Key: map[string]interface{}{"workers": j.Workers, "max": j.Max}})
+		return out
 	}
 	swg.Wait()
 	out.HWM = int(hwm)
